@@ -1,21 +1,21 @@
 (* JSON trees as the request decoders see them, plus the two number conversions Go applies to a JSON
-   number: exact integer (math/big) and IEEE-754 binary64 (encoding/json into `any` = strconv.ParseFloat,
+   number: exact integer (math/big) and IEEE-754 binary64 (encoding/ajson into `any` = strconv.ParseFloat,
    correctly rounded, round-half-even), the amd64 float64->int conversion and fmt's %v of a float64.
    Strings are byte strings (valid UTF-8 is the harness's responsibility). *)
 From Coq Require Import List ZArith String Ascii Bool DecimalString DecimalZ Decimal.
 Import ListNotations.
 Open Scope Z_scope.
 
-(* JNum m None      : a plain integer literal  -?digits            (value m)
-   JNum m (Some e)  : a literal with a fraction and/or an exponent  (value m * 10^e); how it is spelled
+(* AJNum m None      : a plain integer literal  -?digits            (value m)
+   AJNum m (Some e)  : a literal with a fraction and/or an exponent  (value m * 10^e); how it is spelled
                       ("15e-1", "1.5", "0.15E1") is immaterial to every Go consumer modelled here. *)
-Inductive json :=
-| JNull
-| JBool (b : bool)
-| JNum (m : Z) (e : option Z)
-| JStr (s : string)
-| JArr (l : list json)
-| JObj (l : list (string * json)).
+Inductive ajson :=
+| AJNull
+| AJBool (b : bool)
+| AJNum (m : Z) (e : option Z)
+| AJStr (s : string)
+| AJArr (l : list ajson)
+| AJObj (l : list (string * ajson)).
 
 (* ------------------------------------------------------------------ decimal text of integers *)
 Definition zstr (n : Z) : string := NilZero.string_of_int (Z.to_int n).          (* big.Int.String, %d *)
@@ -42,7 +42,7 @@ Definition lit_ratio (m : Z) (e : option Z) : ratio :=
   end.
 
 (* correctly rounded binary64 of num/den > 0: Some (q, sh) with value q * 2^sh, 2^52 <= q < 2^53 (or sh = -1074,
-   subnormal); None = overflow (strconv.ParseFloat returns ErrRange, json.Unmarshal fails) *)
+   subnormal); None = overflow (strconv.ParseFloat returns ErrRange, ajson.Unmarshal fails) *)
 Definition round_f64 (num den : Z) : option (Z * Z) :=
   let ln := Z.log2 num in
   let ld := Z.log2 den in
@@ -150,7 +150,7 @@ Definition fmt_f64 (f : f64) : string :=
 
 (* ------------------------------------------------------------------ object helpers *)
 (* struct field lookup: the LAST occurrence of a key decides (duplicate keys are outside the generated corpus) *)
-Fixpoint jfield (k : string) (l : list (string * json)) : option json :=
+Fixpoint jfield (k : string) (l : list (string * ajson)) : option ajson :=
   match l with
   | [] => None
   | (k', v) :: r => match jfield k r with Some x => Some x | None => if String.eqb k k' then Some v else None end
